@@ -4,6 +4,7 @@ import (
 	"fmt"
 	"go/token"
 	"go/types"
+	"strings"
 
 	"golang.org/x/tools/go/ssa"
 
@@ -487,7 +488,108 @@ func c05r4(c *core.Ctx) {
 		})
 		c.Check(good && n > 0, "decrypt-error-releases-nothing@"+fname(dr), posOf(s), "on a Decrypt error DecryptedRead returns 0 bytes and keeps no remainder",
 			"on a Decrypt error DecryptedRead can still hand out bytes or keep the failed message as remainder")
+		// ... and the failure is reported: the error handed to the caller is not replaced by the result of some other call
+		// (connection.Close() normally answers nil: the reader of the connection sees "0 bytes, no error" and reads on)
+		reported, m := true, 0
+		var witness core.Path
+		core.EnumPaths(dr, 2, 20000, func(pa core.Path) {
+			if !pathEstablishes(pa, failFact) {
+				return
+			}
+			ret := pa.Returns()
+			if ret == nil {
+				return
+			}
+			m++
+			rv := res(ret)[len(res(ret))-1]
+			if !provablyNonNil(pa, pa.ResolveAt(len(pa)-1, rv)) && !provablyNonNil(pa, rv) {
+				if reported {
+					witness = pa
+				}
+				reported = false
+			}
+		})
+		if reported && m > 0 {
+			c.OK("decrypt-error-reported@"+fname(dr), posOf(s), "on all %d paths with a failed Decrypt the caller gets a non-nil error", m)
+		} else {
+			var d []string
+			if witness != nil {
+				d = witness.Describe(p)
+			}
+			c.BadPath("decrypt-error-reported@"+fname(dr), posOf(s), d, "after a failed Decrypt a path of DecryptedRead returns an error that is not known to be non-nil (the decryption error is replaced, e.g. by the result of Close()): the altered frame is not reported, the caller reads on and is given the frames that follow")
+		}
 	}
+	authFailureFinal(c, dec)
+}
+
+// authFailureFinal: a frame that fails authentication ends the stream for the session object itself. The frame counter has moved
+// on (it must: C05-R1), so without a memory of the failure the next call accepts the frame that follows the altered one and releases
+// plaintext that is not a prefix of what the peer sent. Accepted form: a field F of the session that is set on every path on which
+// the AEAD open failed, and whose "unset" test dominates every AEAD open.
+func authFailureFinal(c *core.Ctx, dec *ssa.Function) {
+	p := c.P
+	sites := core.FindCalls(dec, isDecryptCall)
+	if len(sites) == 0 {
+		return
+	}
+	// candidate fields: fields of the session stored in Decrypt, other than the counter
+	cands := map[string]bool{}
+	core.Instrs(dec, func(i ssa.Instruction) {
+		if st, ok := i.(*ssa.Store); ok {
+			if fa, ok := st.Addr.(*ssa.FieldAddr); ok && core.TypeIs(fa.X.Type(), tSecure) {
+				n := core.FieldName(fa)
+				if k := strings.LastIndex(n, "."); k >= 0 {
+					n = n[k+1:]
+				}
+				if n != "" && n != "decryptCount" {
+					cands[n] = true
+				}
+			}
+		}
+	})
+	for _, s := range sites {
+		s := s
+		failFact := core.NonNilFact(func(v ssa.Value) bool {
+			return core.AnySource(v, func(sv ssa.Value) bool {
+				return core.CallResult(sv, 1, func(i ssa.Instruction) bool { return i == s }) != nil
+			})
+		})
+		final := ""
+		for fld := range cands {
+			isLoad := func(v ssa.Value) bool { _, ok := core.FieldLoad(v, tSecure, fld); return ok }
+			if !core.Dominated(s, core.AnyFact(core.IsNilFact(isLoad), core.FalseFact(isLoad))) {
+				continue
+			}
+			all, n := true, 0
+			core.EnumPaths(dec, 2, 200000, func(pa core.Path) {
+				if !pathEstablishes(pa, failFact) {
+					return
+				}
+				n++
+				set := false
+				pa.Instrs(func(i ssa.Instruction) {
+					if st, ok := i.(*ssa.Store); ok {
+						if _, ok := core.FieldAddrOf(st.Addr, tSecure, fld); ok {
+							if k, isK := core.ConstInt(st.Val); isK {
+								set = k != 0
+							} else {
+								set = !core.IsNilConst(st.Val)
+							}
+						}
+					}
+				})
+				if !set {
+					all = false
+				}
+			})
+			if all && n > 0 {
+				final = fld
+			}
+		}
+		c.Check(final != "", "authentication-failure-is-final@"+fname(dec), posOf(s), "a failed open sets "+final+", and every open is behind the test that it is unset",
+			"the session keeps no memory of a frame that failed authentication: the next Decrypt call accepts the frame that follows the altered one (the counter has already moved on) and releases plaintext that is not a prefix of what the peer sent")
+	}
+	_ = p
 }
 
 func c05r5(c *core.Ctx) {
